@@ -252,6 +252,7 @@ from tealer.utils.analyses import (
     leaf_block_global,
 )
 from tealer.utils.algorand_constants import MAX_GROUP_SIZE
+from tealer.utils import verif_trace
 from tealer.analyses.utils.stack_ast_builder import (
     KnownStackValue,
     UnknownStackValue,
@@ -668,6 +669,29 @@ class DataflowTransactionContext(ABC):  # pylint: disable=too-few-public-methods
                 updated = True
         return updated
 
+    def _verif_traced(self, analysis_keys: List[str]) -> bool:
+        # TEALER_VERIF hook: only the analyses whose values are plain sets are traced, base keys only.
+        return (
+            verif_trace.enabled()
+            and self.__class__.__name__ in ("GroupIndices", "TxnType")
+            and list(analysis_keys) == list(self.BASE_KEYS)
+        )
+
+    @staticmethod
+    def _verif_value(value: Any) -> List[Any]:
+        return sorted(v if isinstance(v, int) else str(v) for v in value)
+
+    def _verif_emit(self, event: str, phase: str, analysis_keys: List[str], **fields: Any) -> None:
+        record: Dict[str, Any] = {
+            "ev": event,
+            "phase": phase,
+            "analysis": self.__class__.__name__,
+            "contract": self._function.contract.contract_name,
+            "function": self._function.function_name,
+        }
+        record.update(fields)
+        verif_trace.emit(record)
+
     def forward_analyis(self, analysis_keys: List[str], worklist: List["BasicBlock"]) -> None:
         """Perform forward analysis for analysis_keys and update self._block_contexts
 
@@ -682,6 +706,36 @@ class DataflowTransactionContext(ABC):  # pylint: disable=too-few-public-methods
             global_reachout[key] = {}
             for b in self._function.blocks:
                 global_reachout[key][b] = self._null_set(key)
+
+        if self._verif_traced(analysis_keys):
+            self._verif_emit(
+                "init",
+                "fwd",
+                analysis_keys,
+                keys=list(analysis_keys),
+                univ=[self._verif_value(self._universal_set(k)) for k in analysis_keys],
+                prsv=[
+                    {
+                        "b": bi.idx,
+                        "val": [
+                            self._verif_value(self._block_contexts[k][bi]) for k in analysis_keys
+                        ],
+                    }
+                    for bi in self._function.blocks
+                ],
+                edges=[
+                    {
+                        "to": bi.idx,
+                        "from": bj.idx,
+                        "val": [
+                            self._verif_value(self._path_contexts[k][bi][bj]) for k in analysis_keys
+                        ],
+                    }
+                    for bi in self._path_contexts[analysis_keys[0]]
+                    for bj in self._path_contexts[analysis_keys[0]][bi]
+                ],
+            )
+            self._verif_emit("start", "fwd", analysis_keys, wl=[bi.idx for bi in worklist])
 
         while worklist:
             b = worklist[0]
@@ -700,6 +754,20 @@ class DataflowTransactionContext(ABC):  # pylint: disable=too-few-public-methods
                 for bi in next_blocks_global(self._function, b) + return_point_block:
                     if bi not in worklist:
                         worklist.append(bi)
+
+            if self._verif_traced(analysis_keys):
+                self._verif_emit(
+                    "pop",
+                    "fwd",
+                    analysis_keys,
+                    b=b.idx,
+                    updated=updated,
+                    val=[self._verif_value(global_reachout[k][b]) for k in analysis_keys],
+                    wl=[bi.idx for bi in worklist],
+                )
+
+        if self._verif_traced(analysis_keys):
+            self._verif_emit("done", "fwd", analysis_keys, result=[])
 
         for key in analysis_keys:
             self._block_contexts[key] = global_reachout[key]
@@ -796,6 +864,9 @@ class DataflowTransactionContext(ABC):  # pylint: disable=too-few-public-methods
                 else:
                     global_liveout[key][b] = self._null_set(key)
 
+        if self._verif_traced(analysis_keys):
+            self._verif_emit("start", "bwd", analysis_keys, wl=[bi.idx for bi in worklist])
+
         while worklist:
             b = worklist[0]
             worklist = worklist[1:]
@@ -806,6 +877,31 @@ class DataflowTransactionContext(ABC):  # pylint: disable=too-few-public-methods
                 for bi in prev_blocks_global(self._function, b) + callsub_block:
                     if bi not in worklist:
                         worklist.append(bi)
+
+            if self._verif_traced(analysis_keys):
+                self._verif_emit(
+                    "pop",
+                    "bwd",
+                    analysis_keys,
+                    b=b.idx,
+                    updated=updated,
+                    val=[self._verif_value(global_liveout[k][b]) for k in analysis_keys],
+                    wl=[bi.idx for bi in worklist],
+                )
+
+        if self._verif_traced(analysis_keys):
+            self._verif_emit(
+                "done",
+                "bwd",
+                analysis_keys,
+                result=[
+                    {
+                        "b": bi.idx,
+                        "val": [self._verif_value(global_liveout[k][bi]) for k in analysis_keys],
+                    }
+                    for bi in self._function.blocks
+                ],
+            )
 
         for key in analysis_keys:
             self._block_contexts[key] = global_liveout[key]
